@@ -203,9 +203,9 @@ def report(prop, tier, seed, spec, results, kani_results, wall):
             if oid in seen:
                 continue
             seen.add(oid)
-            conc = None
+            conc = rec.get('concrete')
             try:
-                conc = replayer.search(prop, unit, rec)
+                conc = conc or replayer.search(prop, unit, rec)
             except Exception as e:  # replay search is best effort
                 conc = None
                 rec['replay_error'] = repr(e)
